@@ -27,6 +27,8 @@ def main():
             for l in r.get("lines", []):
                 if l.startswith("VIOLATION"):
                     kinds.append(pid + (": proof / correspondence only" if "no-failing-input-found" in l else ": failing input"))
+        if not kinds and m.get("caught"):
+            kinds = [pid + ": caught on re-run after the checks were strengthened" for pid, r in m.get("our_checks", {}).items() if r.get("exit") == 1]
         sd.append("| %s | %s | %s |" % (os.path.basename(d[:-1]), esc(m.get("breaks", ""))[:260], "; ".join(kinds) or "MISSED"))
     p = os.path.join(V, "DESIGN.md")
     s = open(p).read()
